@@ -4,6 +4,8 @@ mod report;
 mod rx_xref;
 mod rx_store;
 mod rx_pagetree;
+mod sched;
+mod rx_resolver;
 
 fn main() {
     let args: Vec<String> = std::env::args().collect();
@@ -11,11 +13,16 @@ fn main() {
         eprintln!("usage: pdfverif <module> <cases.ndjson> <report.json> [opts]");
         std::process::exit(2);
     }
+    if args[1] == "synccache-probe" {
+        rx_resolver::synccache_probe();
+        return;
+    }
     let opts: Vec<String> = args.iter().skip(4).cloned().collect();
     match args[1].as_str() {
         "xref" => rx_xref::run(&args[2], &args[3], &opts),
         "store" => rx_store::run(&args[2], &args[3], &opts),
         "pagetree" => rx_pagetree::run(&args[2], &args[3], &opts),
+        "resolver" => rx_resolver::run(&args[2], &args[3], &opts),
         m => {
             eprintln!("unknown module {}", m);
             std::process::exit(2);
